@@ -4,7 +4,9 @@ measured by bin/check from Kani's output on every run."""
 
 MEM_KB = 16_000_000          # ulimit -v per Kani/CBMC process
 MAX_REPLAYS = 3             # distinct failing sites replayed natively per run
-MAX_JOBS = 14                # 62 GB / ~4 GB typical, 16 cores
+MAX_JOBS = 12                # 62 GB / ~4 GB typical, 16 cores
+# heavier families (writer histories, 64-bit arithmetic): fewer at a time, they need 4-8 GB each
+JOBS = dict(C11=8, C12=8, C01=6, C02=6, C09=7, C13=6, C17=6, C14=8, C15=8, C10=8)
 TIMEOUT = dict(quick=900, thorough=2400, replay=1200, native=300)
 
 # families whose unwinding assertions *are* the property (C07: a loop that can run more often
@@ -90,7 +92,7 @@ PROPS = {
                    "independent reference encoder written from ISO/IEC 14496-12/-14/-15/-1/-3, 3GPP TS 26.245 and the VP9 binding (common/boxes.rs); "
                    "together with C04's round trip this also decides that reference bytes decode to the same fields. Alternative wire forms (64-bit "
                    "header, padded descriptor lengths, meta without version/flags) are decoded from reference bytes directly.",
-        level_note="Trusted: the reference encoders (validated natively against the repository's canned files by bin/selftest), Kani/CBMC/CaDiCaL. Reserved bits of hvcC are masked (fields, not reserved bits, are the property).",
+        level_note="Trusted: the reference encoders, Kani/CBMC/CaDiCaL. Reserved bits of hvcC are masked (fields, not reserved bits, are the property).",
         bounds="as C04",
         outside="as C04; AudioSpecificConfig object types >= 31 and frequency index 15 in the encoder direction",
         assumptions=COMMON_ASSUME + ["field values within wire width"],
